@@ -475,7 +475,7 @@ func init() {
 			s.Nontrivial(fmt.Sprintf("X/%d", i))
 			if clause != "" {
 				s.Violate(engine.Violation{Sig: fmt.Sprintf("C12/%s/%s/%s", clause, e.kind, c12PrefixClass(e.pf)), Clause: clause, Index: base + int64(i), Kind: "C12-extra",
-					Case: c12Extra{Part: map[bool]string{true: "discovery", false: "foreign"}[e.depth == "discovery"], Kind: e.kind, Prefix: e.pf, Target: e.target, Depth: e.depth},
+					Case:     c12Extra{Part: map[bool]string{true: "discovery", false: "foreign"}[e.depth == "discovery"], Kind: e.kind, Prefix: e.pf, Target: e.target, Depth: e.depth},
 					Expected: "the backend's paths / nothing of the current user's", Observed: detail})
 			}
 		})
